@@ -86,10 +86,13 @@ theorem handle_winv (s : St) (p : Parked) (kn : Nat → Bool) (op : Op) (h : WIn
   unfold handle
   split
   · exact start_winv (s, []) h l
-  · simp only [onSt_fst]; exact (stop_winv s false h).frame (by wframe_eq)
+  · simp only [onSt_fst]
+    exact (stop_winv { s with doVerify := false } false (h.frame (by wframe_eq))).frame (by wframe_eq)
+  · simp only [onSt_fst]; exact stop_winv { s with doVerify := false } false (h.frame (by wframe_eq))
   · simp only [onSt_fst]
     exact (handleVerifyCommand_winv ({ s with persisted := none }, []) (h.frame (by wframe_eq))
       (l.congr (by lframe))).frame (by wframe_eq)
+  · exact handleVerifyCommand_winv ({ s with persisted := none }, []) (h.frame (by wframe_eq)) (l.congr (by lframe))
   · exact h
   · exact h
   · exact h.frame (by wframe_eq)
@@ -146,9 +149,12 @@ theorem handle_no_panic (s : St) (p : Parked) (kn : Nat → Bool) (op : Op) (h :
   unfold handle
   split
   · exact start_no_panic (s, []) (fun hh => ⟨(hidle hh).1, (hidle hh).2.1⟩)
-  · simp only [onSt_fst]; exact stop_panicked s false
+  · simp only [onSt_fst]; exact stop_panicked { s with doVerify := false } false
+  · simp only [onSt_fst]; exact stop_panicked { s with doVerify := false } false
   · simp only [onSt_fst]
     exact handleVerifyCommand_no_panic ({ s with persisted := none }, [])
+      (fun hh => ⟨(hidle (Or.inl hh)).1, (hidle (Or.inl hh)).2.1⟩)
+  · exact handleVerifyCommand_no_panic ({ s with persisted := none }, [])
       (fun hh => ⟨(hidle (Or.inl hh)).1, (hidle (Or.inl hh)).2.1⟩)
   · rfl
   · rfl
